@@ -10,6 +10,7 @@
 #include <iostream>
 #include <map>
 #include <memory>
+#include <new>
 #include <numeric>
 #include <sstream>
 #include <stdexcept>
@@ -252,6 +253,17 @@ struct TreeRegistry {
 inline TreeRegistry &trees() { static TreeRegistry r; return r; }
 
 // --------------------------------------------------------------- job plan / driver helpers
+// The generated algorithm object is built inside storage pre-filled with a loud pattern, so that a data member (a branch
+// variable, a flag) that the generated code reads before it has written it yields a recognisable value instead of whatever
+// a fresh heap page or stack slot holds (usually 0, which is all too often the right answer).
+template <class T> struct Poisoned {
+  void *buf; T *obj = nullptr;
+  Poisoned() { buf = ::operator new(sizeof(T), std::align_val_t(alignof(T))); std::memset(buf, 0xA5, sizeof(T)); }
+  template <class... A> T *make(A &&...a) { obj = new (buf) T(std::forward<A>(a)...); return obj; }
+  ~Poisoned() { if (obj) obj->~T(); ::operator delete(buf, std::align_val_t(alignof(T))); }
+  Poisoned(const Poisoned &) = delete;
+};
+
 struct Plan { int job; std::string tag; std::vector<int> events; };
 inline std::vector<Plan> parse_plan(std::istream &in) {
   std::vector<Plan> ps; std::string tok;
